@@ -37,6 +37,7 @@ class Report:
         self.samples = []
         self.violations = []  # candidate records (sat)
         self.unknowns = []
+        self.unknown_records = []
         self.harness_errors = []
         self.assumptions = []
         self.bounds = {}
@@ -67,10 +68,17 @@ class Report:
             self.harness_errors.append(dict(job="stand-in validation", why=b))
 
     # ---- absorbing explorer output
-    def absorb(self, section, results, sample_every=0):
+    def absorb(self, section, results, sample_every=0, soft=None):
+        """`soft`: predicate on job ids marking seeded *sampled* configurations -- an inconclusive outcome there (unknown, truncated, harness error) is
+        recorded in the evidence but does not make the run inconclusive; candidate counterexamples from them are replayed like any other."""
         sec = self.sections.setdefault(section, dict(jobs=0, paths=0, obligations=0, queries=0, unsat=0, sat=0, unknown=0, solver_s=0.0,
                                                      regimes=0, truncated=0, infeasible=0))
         for jid, r in results.items():
+            if soft is not None and soft(jid):
+                incon = r["truncated"] or r["errors"] or any(x["status"] in ("unknown", "harness_error") or (x["status"] == "end" and "budget" in str(x.get("why"))) for x in r["records"])
+                if incon:
+                    self.extra.setdefault("sampled_configurations_inconclusive", []).append(jid)
+                    r = dict(r, truncated=False, errors=[], records=[x for x in r["records"] if x["status"] in ("ok", "violation", "restart") or (x["status"] == "end" and "budget" not in str(x.get("why")))])
             self.jobs += 1
             sec["jobs"] += 1
             sec["regimes"] += len(r["regimes"])
@@ -100,6 +108,10 @@ class Report:
                     self.violations.append(v)
                 elif rec["status"] == "unknown":
                     self.unknowns.append(dict(job=jid, label=rec["violation"].get("label"), decisions=rec["decisions"][-8:]))
+                    v = dict(rec["violation"])
+                    v["job"] = jid
+                    v["section"] = section
+                    self.unknown_records.append(v)
                 elif rec["status"] == "harness_error":
                     self.harness_errors.append(dict(job=jid, why=rec.get("why")))
                 elif rec["status"] == "end" and "budget" in str(rec.get("why")):
@@ -109,6 +121,32 @@ class Report:
                 if len(self.samples) < 6 and rec["status"] == "ok" and (i % max(1, len(r["records"]) // 2) == 0):
                     self.samples.append(dict(job=jid, pins=rec.get("pins"), decisions=[f"{k}:{v}:{t}" for k, v, t in rec["decisions"][-6:]],
                                              obligations=st.get("obligations"), events=rec.get("events", [])[-6:], result=rec.get("result")))
+
+    def _generic_retries(self, path, module, v, text, n=3):
+        """The candidate's values did not reproduce (degenerate witness: zero gradients, stub outputs that LAPACK does not return, ...) or the solver gave no
+        model: replay the same harness on the real build with generic tensor contents; the file at `path` is the record that reproduced, if any."""
+        if os.environ.get("VERIF_GENERIC_RETRIES", "1") == "0":
+            return 0, text
+        try:
+            import importlib
+            import inspect
+
+            if "replay_record" not in inspect.getsource(importlib.import_module(module).replay):
+                return 0, text  # check-specific replays (real gloo processes, LAPACK searches) do their own search around the witness
+        except Exception:
+            return 0, text
+        for g in range(1, n + 1):
+            v2 = dict(v)
+            v2["generic_seed"] = g
+            with open(path, "w") as f:
+                json.dump(_jsonable(dict(property=self.pid, module=module, record=v2)), f, indent=1)
+            rc, t2 = run_replay(path)
+            if rc == 1:
+                self.extra["reproduced_with_generic_values"] = self.extra.get("reproduced_with_generic_values", 0) + 1
+                return 1, t2
+        with open(path, "w") as f:
+            json.dump(_jsonable(dict(property=self.pid, module=module, record=v)), f, indent=1)
+        return 0, text
 
     # ---- violations: replay, known findings, verdict
     def finish(self, module, level_text_assumptions=None):
@@ -131,6 +169,8 @@ class Report:
                 json.dump(_jsonable(dict(property=self.pid, module=module, record=v)), f, indent=1)
             rc, text = run_replay(path)
             seen_sig.add(sigkey)
+            if rc == 0:
+                rc, text = self._generic_retries(path, module, v, text)
             if rc == 1:
                 k = _match_known(known, sig)
                 if k is not None:
@@ -141,6 +181,29 @@ class Report:
                 not_reproduced.append((path, v, text))
             else:
                 self.harness_errors.append(dict(job=v.get("job"), why=f"replay failed rc={rc}: {text[-600:]}"))
+        # obligations the solver could not decide: candidates with generic values (the harness run concretely on the real build decides whether one is a
+        # counterexample); whatever does not reproduce stays inconclusive
+        still_unknown = []
+        tried = 0
+        for v in self.unknown_records:
+            sig = v.get("info", {}).get("signature") if isinstance(v.get("info"), dict) else None
+            sigkey = "u" + json.dumps(_jsonable(sig), sort_keys=True)
+            if sigkey in seen_sig or tried >= 3 or not isinstance(v.get("info"), dict) or "cfg" not in v["info"]:
+                still_unknown.append(v)
+                continue
+            tried += 1
+            seen_sig.add(sigkey)
+            path = os.path.join(OUT, f"{self.pid}_cex_u{tried}.json")
+            rc, text = self._generic_retries(path, module, v, "")
+            if rc == 1:
+                k = _match_known(known, sig)
+                if k is not None:
+                    known_hits[k["id"]] = k
+                else:
+                    confirmed.append((path, v, text))
+            else:
+                still_unknown.append(v)
+        self.extra["unknown_obligations_tried_with_generic_values"] = tried
         wall = time.time() - self.t0
         ev = dict(
             property_id=self.pid, tier=self.tier, seed=self.seed, level="model_checking",
